@@ -14,21 +14,22 @@ What is *data* (sent by the harness, no assumption made about it in any theorem)
 
 What is transcribed:
 * `ProjMatrixElemsForOneBin::forward_project(Bin&, density)` / `back_project(density, Bin)`
-  (src/recon_buildblock/ProjMatrixElemsForOneBin.cxx:333-369): `fwdRow`, `bckRow`, including the `data == 0`
+  (src/recon_buildblock/ProjMatrixElemsForOneBin.cxx:334-371): `fwdRow`, `bckRow`, including the `data == 0`
   early return and the range guard that exists for the first (z) coordinate only — there is no guard for y and x
   in the C++ (the asserts of `Array::operator[]` are compiled out), so there is none here: the voxel goes through
   the layout function `lin` unchecked.
 * both branches of `ForwardProjectorByBinUsingProjMatrixByBin::actual_forward_project`
-  (ForwardProjectorByBinUsingProjMatrixByBin.cxx:102-205) and of
+  (ForwardProjectorByBinUsingProjMatrixByBin.cxx:102-207) and of
   `BackProjectorByBinUsingProjMatrixByBin::actual_back_project`
-  (BackProjectorByBinUsingProjMatrixByBin.cxx:105-218): `binsPerBin` (cache enabled: loop over viewgrams, tangential,
+  (BackProjectorByBinUsingProjMatrixByBin.cxx:106-222): `binsPerBin` (cache enabled: loop over viewgrams, tangential,
   axial positions), `explicitPositions`/`binsExplicit` (cache disabled: the `already_processed` loop), `fwdBins`, `bckBins`.
-* `ForwardProjectorByBin::forward_project(ProjData&, subset_num, num_subsets, zero)` (ForwardProjectorByBin.cxx:165-227):
+* `ForwardProjectorByBin::forward_project(ProjData&, subset_num, num_subsets, zero)` (ForwardProjectorByBin.cxx:171-235; the `(viewgrams)`, `(viewgrams, min_ax, max_ax)` overloads :238-258 only fill in the full ranges):
   `fwdSubset`; `detail::find_basic_vs_nums_in_subset` (find_basic_vs_nums_in_subset.cxx:32): `vsInSubset`.
 * `BackProjectorByBin::{set_up, start_accumulating_in_new_target, back_project(ProjData), back_project(RelatedViewgrams),
-  get_output, back_project(image, proj_data, ..)}` (BackProjectorByBin.cxx:69, 303, 183, 249, 323, 112): `BackProj.*`.
+  get_output, back_project(image, proj_data, ..)}` (BackProjectorByBin.cxx:71, 306, 186, 260, 327, 115): `BackProj.*`.
 
-Not modelled: float rounding (the driver returns the exact value, the magnitude `Σ|terms|` and the number of terms;
+Not modelled: the on-the-fly projector `ForwardProjectorByBinUsingRayTracing` (hand-optimised Siddon with in-line symmetries;
+it shares no code with the matrix — compared on the implementation by the harness only), float rounding (the driver returns the exact value, the magnitude `Σ|terms|` and the number of terms;
 `checks/c04.py` applies the forward error bound), OpenMP, the pre/post data processors (null in the harness), the
 geometry/modality `check()`s (error paths exercised by the harness as `err` only), the ray tracing itself.
 Core Lean only.
